@@ -534,12 +534,12 @@ fn c10_limit_blocks(st: &mut Stats, sub: &mut Subject, rs: &RunSpec, tape: &Tape
     st.violation(&v, case, crate::exec::log_str(&t.log, 200));
 }
 
-fn fixed_access(n: usize, which: usize) -> (Vec<u8>, Vec<u8>) {
+fn fixed_access(n: usize, which: usize) -> (Vec<crate::model::Mask>, Vec<crate::model::Mask>) {
     if which == 0 {
         (vec![0; n], vec![0; n])
     } else {
         // f0 writes, f1 reads, f2 writes, f3 reads ... of one type: conflicts everywhere
-        ((0..n).map(|i| (i % 2) as u8).collect(), (0..n).map(|i| ((i + 1) % 2) as u8).collect())
+        ((0..n).map(|i| (i % 2) as crate::model::Mask).collect(), (0..n).map(|i| ((i + 1) % 2) as crate::model::Mask).collect())
     }
 }
 
@@ -693,7 +693,13 @@ pub fn run(opts: &Opts, cfg_b: bool) -> Option<Stats> {
             };
             let n = gs.n;
             let mut rs = gen::random_run(&mut rng, n, &plan_ref.rprof, cfg_b);
-            rs.modes = (0..n).map(|_| if rng.chance(2, 3) { Mode::Ready } else { Mode::SelfWake(rng.range(1, 2) as u8) }).collect();
+            rs.modes = match rng.below(if wide { 4 } else { 8 }) {
+                // nothing ever yields to the runtime: the whole run happens inside one task poll,
+                // which is what exhausts tokio's cooperative budget on graphs with > 64 functions
+                0 | 1 => vec![Mode::Ready; n],
+                2 => vec![Mode::SelfWake(1); n],
+                _ => (0..n).map(|_| if rng.chance(2, 3) { Mode::Ready } else { Mode::SelfWake(rng.range(1, 2) as u8) }).collect(),
+            };
             rs.batch = false;
             rs.spurious = 0;
             rs.allow_drop = false;
